@@ -1,5 +1,5 @@
 (* Model of utils/cube.py: get_crop_item_from_points (values form) and of the min / max / keepdims / refusal
-   logic shared by crop and crop_by_values, after the repair that clips the lower index at 0.
+   logic shared by crop and crop_by_values, after the repairs that clip the region at 0 and at the axis length.
    astropy's world_to_array_index_values (floor(pixel + 1/2)) and SlicedLowLevelWCS are dependencies.
    Definitions only. *)
 From NDV Require Export M_Wrappers PyIndex.
@@ -12,17 +12,17 @@ Definition round_half_up (q : Q) : Z := Qfloor (q + (1 # 2))%Q.
 Definition zmin_l (l : list Z) (d : Z) : Z := fold_right Z.min d l.
 Definition zmax_l (l : list Z) (d : Z) : Z := fold_right Z.max d l.
 
-Definition axis_item (idxs : list Z) (keepdims : bool) : item :=
+Definition axis_item (len : Z) (idxs : list Z) (keepdims : bool) : item :=
   match idxs with
   | [] => full_slice
   | x :: r =>
       let lo := Z.max (zmin_l r x) 0 in
-      let hi := Z.max (zmax_l r x + 1) lo in
+      let hi := Z.max (Z.min (zmax_l r x + 1) len) lo in
       if (hi - lo =? 1) && negb keepdims then IInt lo else ISlice (Some lo) (Some hi) None
   end.
 
-Definition crop_item (per_axis : list (list Z)) (keepdims : bool) : result (list item) :=
-  let its := map (fun idxs => axis_item idxs keepdims) per_axis in
+Definition crop_item (shape : list Z) (per_axis : list (list Z)) (keepdims : bool) : result (list item) :=
+  let its := map (fun '(len, idxs) => axis_item len idxs keepdims) (combine shape per_axis) in
   if forallb is_int its && negb (match its with [] => true | _ => false end) then Err EValue else Ok its.
 
 (* ---- which array axes a point touches (values form) and its index on each ------------------------- *)
@@ -43,9 +43,10 @@ Definition point_indices (W : wcs) (n : nat) (point : list (option Q)) : list (n
 
 Definition all_none (point : list (option Q)) : bool := forallb (fun o => match o with None => true | _ => false end) point.
 
-Definition crop_by_values_item (W : wcs) (n : nat) (points : list (list (option Q))) (keepdims : bool) : result (list item) :=
+Definition crop_by_values_item (W : wcs) (shape : list Z) (points : list (list (option Q))) (keepdims : bool) : result (list item) :=
+  let n := length shape in
   if forallb all_none points then Ok (repeat full_slice n)                       (* no-op *)
   else if negb (forallb (fun p => Nat.eqb (length p) (nworld W)) points) then Err EValue
   else
     let pis := flat_map (point_indices W n) points in
-    crop_item (map (fun a => map snd (filter (fun ai => Nat.eqb (fst ai) a) pis)) (seq 0 n)) keepdims.
+    crop_item shape (map (fun a => map snd (filter (fun ai => Nat.eqb (fst ai) a) pis)) (seq 0 n)) keepdims.
